@@ -2937,6 +2937,11 @@ impl Field {
         if offset_a != offset_b {
             return false;
         }
+        // Two different fields can occupy the same place in memory (a removed field's slot
+        // reused by a field added later). Those are not the same field.
+        if self.name != other.name {
+            return false;
+        }
         self.value.layout_compatible(&other.value)
     }
 }
